@@ -185,4 +185,100 @@ theorem quote_is_slice (b : Bytes) (p : Nat) (hp : p < b.length) (q : Bytes) (h 
 /-- non-vacuity: a CRLF file, position in the second line -/
 example : quote (strBytes "ab\r\n  cd\r\nef") 7 = some (strBytes "cd") := by decide +kernel
 
+/-! ### Locating never panics -/
+
+theorem bolAux_spec (b : Array UInt8) (nl : UInt8) (index fuel i : Nat) (hf : i < fuel) :
+    let r := beginningOfLineAux b nl index fuel i
+    r ≤ i + 1 ∧ (r = 0 ∨ b.getD (r - 1) 0 = nl) := by
+  induction fuel generalizing i with
+  | zero => omega
+  | succ f ih =>
+    simp only [beginningOfLineAux]
+    split
+    · rename_i hc
+      simp only [Bool.and_eq_true, beq_iff_eq] at hc
+      exact ⟨by omega, Or.inr (by simpa using hc.1)⟩
+    · split
+      · exact ⟨by omega, Or.inl rfl⟩
+      · rename_i h0
+        simp only [beq_iff_eq] at h0
+        have := ih (i - 1) (by omega)
+        exact ⟨by omega, this.2⟩
+
+theorem endOfLine_cases (b : Bytes) (p : Nat) :
+    ∃ ie, p ≤ ie ∧ (endOfLine b p = ie ∨
+      (0 < ie ∧ endOfLine b p = ie - 1 ∧ ∃ c, b[ie - 1]? = some c ∧ c ≠ newLineSymbol b)) := by
+  unfold endOfLine
+  simp only
+  generalize hie : (if p ≥ b.length then p else p + ((b.drop p).takeWhile (· != newLineSymbol b)).length) = ie
+  have hp : p ≤ ie := by subst hie; split <;> omega
+  refine ⟨ie, hp, ?_⟩
+  split
+  · split
+    · rename_i c hc
+      split
+      · rename_i hcond
+        right
+        refine ⟨by omega, rfl, c, hc, ?_⟩
+        intro heq
+        subst heq
+        rcases (by simpa using hcond : _ ∨ _) with ⟨h1, h2⟩ | ⟨h1, h2⟩
+        · rw [h1] at h2; cases h2
+        · rw [h1] at h2; cases h2
+      · left; rfl
+    · left; rfl
+  · left; rfl
+
+/-- **C07/C01 (locating never panics)**: for a non-empty or empty file and every position up to and
+    including the end-of-file position, `jerr.quote` reaches none of its panic sites (index out of range in
+    BeginningOfLine, slice bounds in Sub: begin ≤ end ≤ length holds, also after the CR of a CRLF pair is cut) -/
+theorem quote_total (b : Bytes) (p : Nat) (hp : p ≤ b.length) : (quote b p).isSome = true := by
+  unfold quote
+  split
+  · rfl
+  · rename_i hne
+    have hlen : 0 < b.length := by
+      cases b with
+      | nil => simp at hne
+      | cons _ _ => simp
+    unfold beginningOfLine
+    have hl0 : (b.length == 0) = false := by cases b <;> simp_all
+    simp only [hl0, Bool.false_eq_true, if_false]
+    generalize hi : (if p > b.length - 1 then b.length - 1 else p) = i
+    have hile : i ≤ b.length - 1 ∧ i ≤ p := by subst hi; split <;> omega
+    have hs := bolAux_spec b.toArray (newLineSymbol b) p (b.length + 1) i (by omega)
+    have hbp := beginningOfLineAux_le b.toArray (newLineSymbol b) p (b.length + 1) i hile.2
+    generalize beginningOfLineAux b.toArray (newLineSymbol b) p (b.length + 1) i = bg at hs hbp
+    simp only at hs
+    have hen := endOfLine_le_length b p hp
+    obtain ⟨ie, hpie, hcase⟩ := endOfLine_cases b p
+    have hbe : bg ≤ endOfLine b p := by
+      rcases hcase with h | ⟨h0, h, c, hc, hcn⟩
+      · omega
+      · by_cases hlt : bg ≤ ie - 1
+        · omega
+        · have hbg : bg = ie := by omega
+          rcases hs.2 with hz | hz
+          · omega
+          · exfalso
+            subst hbg
+            apply hcn
+            have : b.toArray.getD (bg - 1) 0 = c := by
+              simp [Array.getD_eq_getD_getElem?, hc]
+            rw [← this, hz]
+    generalize endOfLine b p = en at hen hbe
+    repeat' split
+    all_goals first | rfl | omega
+
+/-- `jerr.NewLocation` is total for every position up to the end of the file -/
+theorem newLocation_total (b : Bytes) (p : Nat) (hp : p ≤ b.length) : (newLocation b p).isSome = true := by
+  have h := quote_total b p hp
+  unfold newLocation
+  cases hq : quote b p with
+  | none => rw [hq] at h; cases h
+  | some q => rfl
+
+/-- non-vacuity: end-of-file position right after a CRLF, where end-1 meets begin -/
+example : newLocation (strBytes "a\r\n\r\n") 5 = some ⟨5, 3, 1, []⟩ := by decide +kernel
+
 end JsightVerif.Props.C07
